@@ -32,6 +32,9 @@ func (j *JavaIdentifierApp) AnalysisFiles(files []string) []core_domain.CodeData
 		antlr.NewParseTreeWalker().Walk(listener, context)
 
 		identifiers := listener.GetNodes()
+		for i := range identifiers {
+			identifiers[i].FilePath = file
+		}
 		nodeInfos = append(nodeInfos, identifiers...)
 	}
 
